@@ -153,9 +153,33 @@ def run(tier, replay=None):
     samples = []
     for c in vec['cases']:
         top = to_py(c['top'], pems)
-        kind, val = load(copy.deepcopy(top))
+        given = copy.deepcopy(top)
+        kind, val = load(given)
         want = c['out']['c']
         n['singles'] += 1
+        # Load is a function of the dictionary: the same objects presented again after an edit (a reload; a YAML alias shared by two connections) mean
+        # what a fresh copy means.  (Writing into the given dictionary is not judged by itself, only what a later load makes of it.)
+        if kind == 'ok' and want == 'ok':
+            n['purity'] = n.get('purity', 0) + 1
+            if isinstance(top, dict) and all(isinstance(x, dict) and isinstance(x.get('peer_addr'), str) for x in top.values()):
+                for obj in (given, top):
+                    for x in obj.values():
+                        x['peer_addr'] = '10.9.9.9' if x['peer_addr'] != '10.9.9.9' else '192.168.0.2'
+                k1, v1 = load(given)                      # the objects that were loaded before, edited
+                k2, v2 = load(copy.deepcopy(top))         # a fresh copy with the same edit
+                diff = None
+                if k1 == k2 == 'ok':
+                    fresh = normal_form(v2)
+                    for conn, spec_conn in zip(sorted(fresh, key=lambda x: x['key']), sorted(spec_form(c['out']['n']), key=lambda x: x['key'])):
+                        for gp, wp in zip(conn['protect'], spec_conn['protect']):
+                            if wp.get('index') == 'random':
+                                gp['index'] = 'random'           # drawn anew by every load
+                    diff = same(normal_form(v1), fresh)
+                if k1 != k2 or diff:
+                    v.violation(f"{c['level']}.{c['key']}: reloading the same dictionary after editing peer_addr differs from loading a fresh copy: "
+                                f"{diff if k1 == k2 == 'ok' else (k1, k2)}", {'case': c['val']},
+                                signature={'component': 'reload', 'level': c['level']})
+                top = to_py(c['top'], pems)
         outcomes[(want, kind)] = outcomes.get((want, kind), 0) + 1
         distinct.add(json.dumps([c['level'], c['key'], c['val']], sort_keys=True))
         what = f"{c['level']}.{c['key']} = {json.dumps(c['val'])[:80]}"
